@@ -4,7 +4,7 @@ open Fpmodel
    lines as <count> followed by that many strings.  Responses are single lines of integers/keywords.
      readgraph  <lines>  -> OK <graph> | ERR <kind> | UNMODELLED
      readgraphs <lines>  -> OK <nblocks> <graph>* | ERR <kind> | UNMODELLED | OUTOFFUEL
-       <graph> := <idflag> [<str>] <ncons> (<npairs> (<str> <str>)* )* <infoflag> [<nnodes> <str>* <nedges> (<str> <str> <neg> <mantissa> <scale>)* <n> <m>]
+       <graph> := <idflag> [<str>] <ncons> (<npairs> (<str> <str>)* )* <infoflag> [<nnodes> <str>* <nedges> (<str> <str> <neg> <mantissa> <scale>)* <n> <m> <w>]
      pfloat <str> -> OK <neg> <mantissa> <scale> | BAD | UNM        pint <str> -> OK <z> | BAD | UNM
      strops <str> -> <lstrip> <strip> <ntok> <tok>* <is_hdr> <is_blank>       wslist -> all code points < 0x110000 with is_ws *)
 let next_str () = next_list next_n
@@ -28,7 +28,7 @@ let s_graph g =
      add "1"; add (string_of_int (List.length i.gi_nodes)); List.iter (fun x -> add (s_str x)) i.gi_nodes;
      add (string_of_int (List.length i.gi_edges));
      List.iter (fun ((u, v), w) -> add (s_str u); add (s_str v); add (s_dec w)) i.gi_edges;
-     add (string_of_int (int_of_nat i.gi_n)); add (string_of_int (int_of_nat i.gi_m)));
+     add (string_of_int (int_of_nat i.gi_n)); add (string_of_int (int_of_nat i.gi_m)); add (string_of_int (int_of_nat i.gi_w)));
   Buffer.contents b
 let p_res f = function
   | Ok x -> print_endline ("OK " ^ f x)
